@@ -16,7 +16,7 @@ use crate::exact::{width, Class, Row, Q};
 use crate::gen::{self, SlotInfo};
 use crate::lit::*;
 use crate::lpseam::{self, FaultPlan, LpRecord, Mode, Seam};
-use crate::model::{count_fat_leaves, walk, AffQ, Disagreement, ModelTree, RTree, WalkStats};
+use crate::model::{count_fat_leaves, walk_in_box, AffQ, Disagreement, ModelTree, RTree, WalkStats};
 use crate::oracle::{self, AuditStats, C06Stats, CacheStats};
 use crate::prng::Prng;
 
@@ -37,6 +37,10 @@ pub struct Scenario {
     /// Fault mode: un-faulted calls are answered with a different correct witness (see lpseam)
     #[serde(default)]
     pub legal_when_unfaulted: bool,
+    /// float regime: coefficients are not exactly representable products; the reference of every
+    /// step is the real library's own unpruned variant of the operation (snapshotted exactly)
+    #[serde(default)]
+    pub float_regime: bool,
 }
 
 #[derive(Clone, Debug, Serialize, Deserialize)]
@@ -75,6 +79,7 @@ pub struct PwlStats {
     pub steps: u64,
     pub steps_by_op: BTreeMap<String, u64>,
     pub runs_by_mode: BTreeMap<String, u64>,
+    pub float_regime_runs: u64,
     pub ctor_kinds: BTreeMap<String, u64>,
     pub pruning_steps: u64,
     pub pruning_steps_that_removed_nodes: u64,
@@ -111,6 +116,7 @@ pub struct PwlStats {
     pub audit_exact_thin: u64,
     pub audit_exact_fat: u64,
     pub audit_backend_disagreements: u64,
+    pub audit_backend_points_outside_tolerance: u64,
     pub audit_path_polytopes_matched: u64,
     pub max_nodes: usize,
     pub elim_counter: BTreeMap<String, u64>,
@@ -140,13 +146,13 @@ impl PwlStats {
             ($($f:ident),*) => { $( for (k, v) in o.$f { *self.$f.entry(k).or_default() += v; } )* };
         }
         add!(
-            runs, steps, pruning_steps, pruning_steps_that_removed_nodes, partial_trees_pruned, lp_calls, walk_cells,
+            runs, float_regime_runs, steps, pruning_steps, pruning_steps_that_removed_nodes, partial_trees_pruned, lp_calls, walk_cells,
             walk_fat_leaf_cells, walk_thin_or_empty_cells, nonpruning_selfchecks, nonpruning_mismatches,
             unconfirmed_disagreements, cache_witness_nodes, cache_witnesses_checked, cache_witnesses_in_tolerance_band,
             cache_infeasible_marks_checked, cache_feasible_no_witness_nodes, mirror_probes, mirror_probe_points_returned,
             c06_checked, c06_skipped_precondition, c06_nodes_examined, c06_thin_nodes_kept, c06_idempotence_checked,
             c06_region_bounds_checked, audit_calls, audit_exact_empty, audit_exact_thin, audit_exact_fat,
-            audit_backend_disagreements, audit_path_polytopes_matched, recovery_checked, recovery_full
+            audit_backend_disagreements, audit_backend_points_outside_tolerance, audit_path_polytopes_matched, recovery_checked, recovery_full
         );
         addmap!(
             steps_by_op, runs_by_mode, ctor_kinds, lp_answers_replaced_legal, faults_configured, faults_fired,
@@ -215,6 +221,9 @@ pub struct Exec {
     /// the property the running check judges: violations of *other* properties are recorded but do
     /// not end the run (unless the tree is unusable), so that they cannot mask a later violation
     pub focus: Option<String>,
+    pub float: bool,
+    /// LP answers discarded by the last elimination (float regime: effectiveness is then not judged)
+    pub last_lps_error: usize,
 }
 
 fn aff_q(l: &AffLit) -> AffQ {
@@ -279,6 +288,9 @@ impl Exec {
         }
         if stats_mode_label {
             bump(&mut stats.runs_by_mode, &format!("{:?}", sc.mode).to_lowercase(), 1);
+            if sc.float_regime {
+                stats.float_regime_runs += 1;
+            }
         }
         Ok(Exec {
             pool,
@@ -293,6 +305,8 @@ impl Exec {
             removed_any: false,
             selfcheck_pm: 150,
             focus: None,
+            float: sc.float_regime,
+            last_lps_error: 0,
         })
     }
 
@@ -304,14 +318,23 @@ impl Exec {
                 out_dim: m.out_dim().unwrap_or(0),
                 leaves: m.num_leaves(),
                 nodes: m.root.count_nodes(),
-                fits12: m.max_fixed(12, 12),
-                fits24: m.max_fixed(24, 24),
+                fits12: self.float || m.max_fixed(12, 12),
+                fits24: self.float || m.max_fixed(24, 24),
             })
             .collect()
     }
 
     fn faults_armed(&self) -> bool {
         self.seam.borrow().faults_armed
+    }
+
+    /// Float regime: FAT judgments are made inside the box |x_j| <= 1e4 (see model::walk_in_box).
+    fn fat_box(&self) -> Option<f64> {
+        if self.float {
+            Some(1e4)
+        } else {
+            None
+        }
     }
 
     /// Does a violation of `clause` end the run?
@@ -459,7 +482,7 @@ impl Exec {
         self.stats.max_nodes = self.stats.max_nodes.max(self.pool[slot].len());
         // C05: caches
         if !out.stop {
-            match oracle::check_caches(&self.pool[slot]) {
+            match oracle::check_caches(&self.pool[slot], self.fat_box()) {
                 Ok(cs) => self.absorb_cache_stats(&cs),
                 Err((class, detail)) => {
                     out.violations.push(self.viol(Clause::Cache, &class, site, detail));
@@ -473,7 +496,7 @@ impl Exec {
         let do_walk = prunes || self.probe_rng.chance(self.selfcheck_pm, 1000);
         if do_walk && result_model.in_dim == expected.in_dim {
             let mut ws = WalkStats::default();
-            let dis = walk(&result_model, expected, &mut ws);
+            let dis = walk_in_box(&result_model, expected, self.fat_box(), &mut ws);
             self.stats.walk_cells += ws.cells;
             self.stats.walk_fat_leaf_cells += ws.fat_leaf_cells;
             self.stats.walk_thin_or_empty_cells += ws.thin_or_empty_cells;
@@ -532,6 +555,7 @@ impl Exec {
         self.stats.audit_exact_thin += a.exact_thin;
         self.stats.audit_exact_fat += a.exact_fat;
         self.stats.audit_backend_disagreements += a.backend_disagreements;
+        self.stats.audit_backend_points_outside_tolerance += a.backend_points_outside_tolerance;
         self.stats.audit_path_polytopes_matched += a.path_polytopes_matched;
     }
 
@@ -554,7 +578,7 @@ impl Exec {
                 if *slot >= n_slots {
                     invalid!();
                 }
-                let Ok(expected) = self.models[*slot].apply_func(&aff_q(aff)) else { invalid!() };
+                let Ok(expected) = (if self.float { self.float_reference(op) } else { self.models[*slot].apply_func(&aff_q(aff)) }) else { invalid!() };
                 let before = self.pool[*slot].clone();
                 let f = aff.to_aff();
                 let r = guarded(|| self.pool[*slot].apply_func(&f));
@@ -573,7 +597,7 @@ impl Exec {
                 if self.models[*slot].out_dim() != Some(other_model.in_dim) {
                     invalid!();
                 }
-                let Ok(expected) = self.models[*slot].compose(&other_model) else { invalid!() };
+                let Ok(expected) = (if self.float { self.float_reference(op) } else { self.models[*slot].compose(&other_model) }) else { invalid!() };
                 let before = self.pool[*slot].clone();
                 let r = guarded(|| {
                     if *prune {
@@ -584,7 +608,7 @@ impl Exec {
                 });
                 let recs = self.absorb_records();
                 let mut a = AuditStats::default();
-                let _ = oracle::audit(&recs, None, &mut a);
+                let _ = oracle::audit(&recs, None, &mut a, self.fat_box());
                 self.absorb_audit(&a);
                 let nb = before.len();
                 if let Some(m) = self.finish(*slot, &site, r, &expected, *prune, RefEval::Seq(before, other_tree), nb, &mut out) {
@@ -612,6 +636,7 @@ impl Exec {
                         bump(&mut self.stats.elim_counter, "lps_feasible", counter.lps_feasible as u64);
                         bump(&mut self.stats.elim_counter, "lps_infeasible", counter.lps_infeasible as u64);
                         bump(&mut self.stats.elim_counter, "lps_error", counter.lps_error as u64);
+                        self.last_lps_error = counter.lps_error;
                         Ok(())
                     }
                     Err(p) => Err(p),
@@ -622,7 +647,7 @@ impl Exec {
                 if ok {
                     // LP audit: every polytope handed to the backend is a path polytope of the pre-step tree
                     let mut a = AuditStats::default();
-                    let res = oracle::audit(&recs, Some(&pre_paths), &mut a);
+                    let res = oracle::audit(&recs, Some(&pre_paths), &mut a, self.fat_box());
                     self.absorb_audit(&a);
                     if let Err((class, detail)) = res {
                         out.violations.push(self.viol(Clause::Cache, &class, &site, detail));
@@ -661,7 +686,7 @@ impl Exec {
                 if me.in_dim != other_model.in_dim || me.out_dim().is_none() || me.out_dim() != other_model.out_dim() {
                     invalid!();
                 }
-                let Ok(expected) = me.lift(&other_model, *kind) else { invalid!() };
+                let Ok(expected) = (if self.float { self.float_reference(op) } else { me.lift(&other_model, *kind) }) else { invalid!() };
                 let before = self.pool[*slot].clone();
                 let taken = std::mem::replace(&mut self.pool[*slot], AffTree::<2>::new(1));
                 let r = guarded(|| match kind {
@@ -671,7 +696,7 @@ impl Exec {
                 });
                 let recs = self.absorb_records();
                 let mut a = AuditStats::default();
-                let _ = oracle::audit(&recs, None, &mut a);
+                let _ = oracle::audit(&recs, None, &mut a, self.fat_box());
                 self.absorb_audit(&a);
                 let r = match r {
                     Ok(t) => {
@@ -689,7 +714,7 @@ impl Exec {
                 if *slot >= n_slots {
                     invalid!();
                 }
-                let Ok(expected) = self.models[*slot].map(&mut |f| Ok(f.neg())) else { invalid!() };
+                let Ok(expected) = (if self.float { self.float_reference(op) } else { self.models[*slot].map(&mut |f| Ok(f.neg())) }) else { invalid!() };
                 let nb = self.pool[*slot].len();
                 let taken = std::mem::replace(&mut self.pool[*slot], AffTree::<2>::new(1));
                 let r = guarded(|| -taken);
@@ -714,7 +739,7 @@ impl Exec {
                 if me.in_dim != g.indim || me.out_dim() != Some(g.outdim()) {
                     invalid!();
                 }
-                let Ok(expected) = me.map(&mut |f| if *aff_left { g.elementwise(f, *kind) } else { f.elementwise(&g, *kind) }) else {
+                let Ok(expected) = (if self.float { self.float_reference(op) } else { me.map(&mut |f| if *aff_left { g.elementwise(f, *kind) } else { f.elementwise(&g, *kind) }) }) else {
                     invalid!()
                 };
                 let nb = self.pool[*slot].len();
@@ -768,7 +793,14 @@ impl Exec {
                     invalid!();
                 }
                 let pq: Vec<Option<Q>> = point.iter().map(|p| p.map(Q::from_f64)).collect();
-                let expected = me.slice(&pq);
+                let expected = if self.float {
+                    match self.float_reference(op) {
+                        Ok(m) => m,
+                        Err(_) => invalid!(),
+                    }
+                } else {
+                    me.slice(&pq)
+                };
                 let target = self.pool[*slot].clone();
                 let nb = target.len();
                 let pt = slice_point(point);
@@ -794,7 +826,7 @@ impl Exec {
                 let m = self.finish(*slot, &site, r, &expected, true, RefEval::ModelOnly, nb, &mut out);
                 if ok {
                     let mut a = AuditStats::default();
-                    let res = oracle::audit(&recs, mid_paths.as_ref(), &mut a);
+                    let res = oracle::audit(&recs, mid_paths.as_ref(), &mut a, self.fat_box());
                     self.absorb_audit(&a);
                     if let Err((class, detail)) = res {
                         out.violations.push(self.viol(Clause::Cache, &class, &site, detail));
@@ -817,7 +849,14 @@ impl Exec {
                 }
                 // dropping a column = fixing that coordinate to 0
                 let pq: Vec<Option<Q>> = keep.iter().map(|k| if *k { None } else { Some(Q::zero()) }).collect();
-                let expected = me.slice(&pq);
+                let expected = if self.float {
+                    match self.float_reference(op) {
+                        Ok(m) => m,
+                        Err(_) => invalid!(),
+                    }
+                } else {
+                    me.slice(&pq)
+                };
                 let nb = self.pool[*slot].len();
                 let mask = Array1::from_vec(keep.clone());
                 let r = guarded(|| self.pool[*slot].remove_axes(&mask).expect("mask has the tree's input dimension"));
@@ -871,12 +910,19 @@ impl Exec {
                         Err(_) => invalid!(),
                     }
                 }
-                let expected = model;
+                let expected = if self.float {
+                    match self.float_reference(op) {
+                        Ok(m) => m,
+                        Err(_) => invalid!(),
+                    }
+                } else {
+                    model
+                };
                 let real_layers: Vec<_> = layers.iter().map(|l| l.build()).collect();
                 let r = guarded(|| afftree_from_layers(*dim, &real_layers, pre_tree));
                 let recs = self.absorb_records();
                 let mut a = AuditStats::default();
-                let _ = oracle::audit(&recs, None, &mut a);
+                let _ = oracle::audit(&recs, None, &mut a, self.fat_box());
                 self.absorb_audit(&a);
                 let r = match r {
                     Ok(t) => {
@@ -888,7 +934,7 @@ impl Exec {
                 let ok = r.is_ok();
                 let m = self.finish(*slot, &site, r, &expected, true, RefEval::ModelOnly, 0, &mut out);
                 if let Some(m) = m {
-                    if ok && !out.stop && total_pre && self.check && !(self.mode == Mode::Fault && self.faults_armed()) && !self.seam.borrow().tolerance_answers {
+                    if ok && !out.stop && total_pre && self.check && !(self.mode == Mode::Fault && self.faults_armed()) && !self.seam.borrow().tolerance_answers && !self.float {
                         // C06 (d): #full-dimensional regions <= #terminals <= #non-empty closed regions
                         let mut ws = WalkStats::default();
                         let fat = count_fat_leaves(&expected, &mut ws);
@@ -927,6 +973,125 @@ impl Exec {
         out
     }
 
+    /// Float regime: the reference of a step is what the real library computes for the same
+    /// operation *without pruning*, snapshotted exactly. Coefficients of corresponding nodes are
+    /// produced by the same f64 operations in the same order, so they are bit-identical.
+    fn float_reference(&self, op: &Op) -> Result<ModelTree, String> {
+        use affinitree::distill::schema;
+        use affinitree::pwl::impl_composition::{CompositionSchema, NoOpVis};
+        struct AddU;
+        struct SubU;
+        struct MulU;
+        macro_rules! schema_impl {
+            ($name:ident, $op:tt) => {
+                impl CompositionSchema for $name {
+                    fn update_decision(original: &AffFunc, _: &AffFunc) -> AffFunc {
+                        original.to_owned()
+                    }
+                    fn update_terminal(original: &AffFunc, context: &AffFunc) -> AffFunc {
+                        context.clone() $op original
+                    }
+                    fn explore<const K: usize>(_: &AffTree<K>, _: usize, _: usize) -> bool {
+                        true
+                    }
+                }
+            };
+        }
+        schema_impl!(AddU, +);
+        schema_impl!(SubU, -);
+        schema_impl!(MulU, *);
+        let r = guarded(|| -> Result<AffTree<2>, String> {
+            Ok(match op {
+                Op::ApplyFunc { slot, aff } => {
+                    let mut t = self.pool[*slot].clone();
+                    t.apply_func(&aff.to_aff());
+                    t
+                }
+                Op::Compose { slot, other, .. } => {
+                    let o = self.other_tree(other)?;
+                    let mut t = self.pool[*slot].clone();
+                    t.compose::<false, false>(&o);
+                    t
+                }
+                Op::Eliminate { slot } | Op::Reduce { slot } => self.pool[*slot].clone(),
+                Op::CloneTo { from, .. } => self.pool[*from].clone(),
+                Op::Bin { kind, slot, other } => {
+                    let o = self.other_tree(other)?;
+                    let mut t = self.pool[*slot].clone();
+                    let terms: Vec<usize> = t.tree.terminal_indices().collect();
+                    match kind {
+                        BinKind::Add => AffTree::<2>::generic_composition_inplace(&o, &mut t, terms, AddU, NoOpVis {}),
+                        BinKind::Sub => AffTree::<2>::generic_composition_inplace(&o, &mut t, terms, SubU, NoOpVis {}),
+                        BinKind::Mul => AffTree::<2>::generic_composition_inplace(&o, &mut t, terms, MulU, NoOpVis {}),
+                    }
+                    t
+                }
+                Op::Neg { slot } => -self.pool[*slot].clone(),
+                Op::Scalar { kind, slot, aff, aff_left } => {
+                    let t = self.pool[*slot].clone();
+                    let f = aff.to_aff();
+                    match (kind, aff_left) {
+                        (BinKind::Add, false) => t + &f,
+                        (BinKind::Sub, false) => t - &f,
+                        (BinKind::Mul, false) => t * &f,
+                        (BinKind::Add, true) => &f + t,
+                        (BinKind::Sub, true) => &f - t,
+                        (BinKind::Mul, true) => &f * t,
+                    }
+                }
+                Op::Slice { slot, point } => {
+                    let mut s = AffTree::<2>::from_slice(&slice_point(point));
+                    s.compose::<false, false>(&self.pool[*slot]);
+                    let mask = Array1::from_vec(point.iter().map(|p| p.is_none()).collect::<Vec<bool>>());
+                    s.remove_axes(&mask).map_err(|e| e.to_string())?;
+                    s
+                }
+                Op::RemoveAxes { slot, keep } => {
+                    let mut t = self.pool[*slot].clone();
+                    t.remove_axes(&Array1::from_vec(keep.clone())).map_err(|e| e.to_string())?;
+                    t
+                }
+                Op::Pipeline { dim, layers, pre, .. } => {
+                    let mut dd = match pre {
+                        Some(c) => c.build(),
+                        None => AffTree::<2>::new(*dim),
+                    };
+                    let mut cur = dd.terminals().map(|x| x.aff.outdim()).next().ok_or("no terminal")?;
+                    for l in layers {
+                        match l {
+                            LayerLit::Linear { aff } => {
+                                let f = aff.to_aff();
+                                if f.indim() != cur {
+                                    return Err("layer dimension".into());
+                                }
+                                dd.apply_func(&f);
+                                cur = f.outdim();
+                            }
+                            LayerLit::Relu { row } if *row < cur => dd.compose::<false, false>(&schema::partial_ReLU(cur, *row)),
+                            LayerLit::LeakyRelu { row, alpha } if *row < cur => dd.compose::<false, false>(&schema::partial_leaky_ReLU(cur, *row, *alpha)),
+                            LayerLit::HardTanh { row } if *row < cur => dd.compose::<false, false>(&schema::partial_hard_tanh(cur, *row, -1., 1.)),
+                            LayerLit::ClassChar { clazz } if *clazz < cur && cur >= 2 => {
+                                dd.compose::<false, false>(&schema::class_characterization(cur, *clazz));
+                                cur = 1;
+                            }
+                            LayerLit::Argmax if cur >= 2 => {
+                                dd.compose::<false, false>(&schema::argmax(cur));
+                                cur = 1;
+                            }
+                            _ => return Err("layer index out of range".into()),
+                        }
+                    }
+                    dd
+                }
+            })
+        });
+        match r {
+            Ok(Ok(t)) => ModelTree::snapshot(&t),
+            Ok(Err(e)) => Err(e),
+            Err(p) => Err(format!("reference operation panicked: {p}")),
+        }
+    }
+
     fn model_of_schema(&self, s: &SchemaLit) -> Result<ModelTree, String> {
         let t = guarded(|| s.build()).map_err(|p| format!("schema constructor panicked: {p}"))?;
         ModelTree::snapshot(&t)
@@ -934,7 +1099,7 @@ impl Exec {
 
     fn c06_after_elimination(&mut self, slot: usize, site: &str, pre_a: bool, pre_b: bool, out: &mut StepReport) {
         let fault = self.mode == Mode::Fault && self.faults_armed();
-        if fault || self.seam.borrow().tolerance_answers {
+        if fault || self.seam.borrow().tolerance_answers || (self.float && self.last_lps_error > 0) {
             return;
         }
         if !pre_a {
@@ -1246,6 +1411,7 @@ pub fn seeded_history_run_traced(focus: &str, run_seed: u64, deep: bool, print: 
         // "less pruning" and would make the effectiveness clauses a false-alarm source
         legal_tolerance_answers: mode == Mode::Legal && focus != "C06" && rng.chance(1, 2),
         legal_when_unfaulted: false,
+        float_regime: knobs.float_regime,
     };
     let mut violations = Vec::new();
     let mut ex = match Exec::new(&sc, true) {
@@ -1348,6 +1514,8 @@ fn run_suffix(prefix_pool: &[AffTree<2>], prefix_models: &[ModelTree], sc: &Scen
         removed_any: false,
         selfcheck_pm: 0,
         focus: None,
+        float: sc.float_regime,
+        last_lps_error: 0,
     };
     for f in sc.fault_plan.faults.values() {
         bump(&mut ex.stats.faults_configured, f.family(), 1);
@@ -1397,6 +1565,7 @@ pub fn seeded_fault_scenario_traced(run_seed: u64, thorough: bool, print: bool) 
         fault_plan: FaultPlan::default(),
         legal_tolerance_answers: false,
         legal_when_unfaulted: rng.chance(1, 3),
+        float_regime: knobs.float_regime,
     };
     let mut stats = PwlStats::default();
     let mut result = FaultScenarioResult {
